@@ -785,7 +785,7 @@ def predecessors_of_proxy_deleted(lst):
         for t in seq:
             if t.t == "I":
                 last_instr = t
-            elif t.t == "D":
+            elif t.t == "D" and not t.uncovered:
                 last_instr = None
             elif t.t == "B" and t.bid in lst.proxy_deleted and \
                     last_instr is not None:
